@@ -42,6 +42,9 @@ def contracts(Ty: Types, reg: Registry, ctx, pid="C01"):
         reg.add_shape(Shape("Tables", fields={}))
     reg.add_shape(Shape("SQLiteOrchestrator", fields={"sqlite_db_path": STR, "tables": ObjT("Tables"), "app": ObjT("App")},
                         cls=(SO, "SQLiteOrchestrator")))
+    sq = reg.shapes["SQLiteOrchestrator"]
+    sq.auto_fields, sq.auto_str_key = True, ID       # further bookkeeping attributes are "don't care" fields; str keys there are invocation ids
+    reg.ann_types = dict(getattr(reg, "ann_types", {}), InvocationStatusRecord=Ty.Record, InvocationStatus=Ty.Status)
     tr_key = "pynenc.invocation.status:status_record_transition"
     reg.contracts[tr_key].event = True
     OREC, OSTR = Opt(Ty.Record), Opt(RUNNER)
